@@ -130,3 +130,54 @@ Fixpoint payload_lookup (k : bytes) (m : list (bytes * bytes)) : option bytes :=
   | [] => None
   | (k', v) :: r => if bytes_eqb k' k then Some v else payload_lookup k r
   end.
+
+(* ---- rows decoded against cached result metadata (the skip-metadata optimisation) --------------- *)
+(* RawMetadataAndRawRows::deserialize_metadata with `cached_metadata = Some(m)`: when the server sent
+   NO_METADATA the cached column specs are used (ResultMetadataHolder::SharedCached), otherwise the
+   metadata of the frame.  [cached] = (col_count, col_specs) of the PREPARED response's result metadata. *)
+Section Cached.
+Variable custom : custom_parser.
+Definition deser_rows_full_cached (ft : features) (cached : option bytes * N * list colspec)
+  : parser (rows_result * N) :=
+  let '(cid, ccount, ccols) := cached in
+  h <- deser_rows_hdr ft ;;
+  if rh_no_metadata h then
+    rc <- read_int_length ;;
+    rows <- deser_rows (lenN ccols) rc ;;
+    ret (mkRows h cid ccols rc rows, ccount)
+  else
+    m <- deser_rows_meta custom h ;;
+    let '(id, cols, rc) := m in
+    rows <- deser_rows (lenN cols) rc ;;
+    ret (mkRows h id cols rc rows, rh_col_count h).
+
+(* two frames on one stream: a PREPARED response, then a Rows response decoded with the first one's
+   result metadata as the cache.  None: the pair is not of that shape (the runner then reports the
+   same). *)
+Definition decode_pair (ft : features) (stream : bytes)
+  : option (result (stage * ferr) (rows_result * N)) :=
+  match read_frame stream with
+  | (Ok ((h1, body1), rest), _) =>
+    if negb (h_flags h1 =? 0) || negb (h_opcode h1 =? 8) then None
+    else match run (deser_response custom ft true 8) body1 with
+         | Ok (RResult (ResPrepared p), _) =>
+           match read_frame rest with
+           | (Ok ((h2, body2), _), _) =>
+             if negb (h_flags h2 =? 0) || negb (h_opcode h2 =? 8) then None
+             else match run read_int body2 with
+                  | Err e => Some (Err (StBody, e))
+                  | Ok (kind, b2) =>
+                    if (kind =? 2)%Z then
+                      match run (deser_rows_full_cached ft (p_result_metadata_id p, pr_col_count p, pr_cols p)) b2 with
+                      | Ok (r, _) => Some (Ok r)
+                      | Err e => Some (Err (StBody, e))
+                      end
+                    else None
+                  end
+           | (Err e, _) => Some (Err (StHeader, e))
+           end
+         | _ => None
+         end
+  | _ => None
+  end.
+End Cached.
